@@ -42,14 +42,26 @@ Verdict judge(const Case& c) {
   shim::BoolArgs ha;
   ha.subj = toShim(subj);
   ha.clip = toShim(clip);
-  for (int variant = 0; variant < 3; ++variant)
+  for (int variant = 0; variant < 4; ++variant)
     for (ClipType ct : CTS)
       for (FillRule fr : FRS)
         for (int pc = 0; pc < 2; ++pc)
           for (int rev = 0; rev < 2; ++rev) {
             Paths64 sol;
             bool ok;
-            if (variant == 2) {
+            if (variant == 3) {
+              // staged loading on one object: subjects, an Execute, then the clips (and the second half of the subjects)
+              if (pc != 0 || rev != 0) continue;
+              Clipper64 cl;
+              cl.PreserveCollinear(false);
+              size_t half = subj.size() > 1 ? subj.size() / 2 : subj.size();
+              cl.AddSubject(Paths64(subj.begin(), subj.begin() + half));
+              Paths64 first;
+              cl.Execute(ClipType::Union, fr, first);
+              if (half < subj.size()) cl.AddSubject(Paths64(subj.begin() + half, subj.end()));
+              cl.AddClip(clip);
+              ok = cl.Execute(ct, fr, sol);
+            } else if (variant == 2) {
               // the free-function route (Intersect / Union / Difference / Xor and BooleanOp, default options)
               if (pc != 0 || rev != 0) continue;
               ok = true;
@@ -75,7 +87,7 @@ Verdict judge(const Case& c) {
             }
             v.evals++;
             std::string cfg = std::string(" [") + O::ctName(ct) + "," + O::frName(fr) + ",pc=" + std::to_string(pc) +
-                              ",rev=" + std::to_string(rev) + (variant == 1 ? ",HI_PRECISION" : variant == 2 ? ",free function" : "") + "]";
+                              ",rev=" + std::to_string(rev) + (variant == 1 ? ",HI_PRECISION" : variant == 2 ? ",free function" : variant == 3 ? ",staged loading" : "") + "]";
             if (!ok) { v.fail("Execute returned false" + cfg); return v; }
             for (size_t k = 0; k < S.pts.size(); ++k) {
               bool sel = O::op(ct, O::filled(fr, ws[k]), O::filled(fr, wc[k]));
